@@ -278,9 +278,15 @@ fn gen_cb_op<P: Pad>(r: &mut RandomDir, w: &mut World<P>, kind: CbKind, me: u32)
         78..=82 if cfg!(feature = "fin") => pick(rng, &roots).map(|o| json!({"e": "call", "op": "fagain", "o": o})),
         83..=90 if r.cfg.weak && w.nw > 0 => Some(json!({"e": "call", "op": "upgradef", "a": me, "k": "w", "i": rng.gen_range(1..=w.nw)})),
         91..=94 => pick(rng, &roots).map(|o| json!({"e": "call", "op": "clone", "o": o})),
-        95..=97 => {
+        95..=96 => {
             let (k, i) = slot(rng, w);
             pick(rng, &roots).map(|a| json!({"e": "call", "op": "clonef", "a": a, "k": k, "i": i}))
+        }
+        97..=99 => {
+            // move a handle into one of my own fields (resurrection without an extra clone/drop)
+            let (k, i) = slot(rng, w);
+            let o = if roots.contains(&me) && rng.gen_bool(0.7) { Some(me) } else { pick(rng, &roots) };
+            o.map(|o| json!({"e": "call", "op": "put", "a": me, "k": k, "i": i, "o": o}))
         }
         _ => None,
     }
@@ -326,7 +332,17 @@ pub fn gen_top_op<P: Pad>(r: &mut RandomDir, w: &mut World<P>) -> Option<Value> 
             let (k, i) = slot(rng, w);
             pick(rng, &roots).map(|a| json!({"e": "call", "op": "clonef", "a": a, "k": k, "i": i}))
         }
-        140..=146 => pick(rng, &roots).map(|o| json!({"e": "call", "op": "mark", "o": o})),
+        140..=143 => pick(rng, &roots).map(|o| json!({"e": "call", "op": "mark", "o": o})),
+        144..=145 => {
+            let (k, i) = slot(rng, w);
+            let a = pick(rng, &roots)?;
+            let o = pick(rng, &roots)?;
+            Some(json!({"e": "call", "op": "put", "a": a, "k": k, "i": i, "o": o}))
+        }
+        146 => {
+            let (k, i) = slot(rng, w);
+            pick(rng, &roots).map(|a| json!({"e": "call", "op": "take", "a": a, "k": k, "i": i}))
+        }
         147..=161 => Some(json!({"e": "call", "op": "collect"})),
         162..=168 => pick(rng, &roots).map(|o| json!({"e": "call", "op": "unwrap", "o": o})),
         169..=172 => pick(rng, &moved).map(|o| json!({"e": "call", "op": "dropval", "o": o})),
